@@ -1,4 +1,4 @@
-import Ledger.Proofs.CoreHistory
+import Ledger.Proofs.CoreInsPcv
 
 /-!
 C03 — Post-commit volumes describe the state right after each transaction.
@@ -80,5 +80,11 @@ example : (runOps [.commit { postings := [⟨"world", "a", 10, "USD"⟩], timest
             (fun st => st.txs.map (fun r => r.pcv)) =
           some [[(("a", "USD"), ⟨10, 0⟩), (("world", "USD"), ⟨0, 10⟩)], [(("a", "USD"), ⟨11, 5⟩), (("b", "USD"), ⟨4, 0⟩)]] := by
   decide
+
+/-- Move level, in every reachable store: a move's post-commit volumes are the sum of the
+    deltas of all moves of its account/asset up to and including itself in `seq` order — i.e.
+    the running volumes over the whole history, not only within its transaction. -/
+theorem moves_pcv_running_all_histories (ops : List StoreOp) (st : Store) (h : runOps ops = .ok st) :
+    PCV_Inv st.moves := (BigInv_runOps h).pcvInv
 
 end Ledger.C03
